@@ -2,7 +2,7 @@
    from /repo/src/pycel/excellib.py on every run; numbers are exact rationals
    ([qv v] is the value of a Python int/float/bool). *)
 From Coq Require Import ZArith QArith Qround Qabs List.
-From PV Require Import Lib.Py Proofs.NumLemmas Proofs.C19.
+From PV Require Import Lib.Py Proofs.NumLemmas Proofs.C19 Proofs.C19Bracket.
 From PV Require Gen.excelutil Gen.excellib.
 Import ListNotations.
 Open Scope Z_scope.
@@ -41,6 +41,14 @@ Print Assumptions C19_fix_multiples.
 Theorem C19_unit_positive : forall n, (0 < pow10 n)%Q.
 Proof. exact pow10_pos. Qed.
 Print Assumptions C19_unit_positive.
+
+(* "ROUNDDOWN <= |x| <= ROUNDUP in magnitude": with the closed forms of
+   C19_rounddown / C19_roundup, for every rational x and every integer d *)
+Theorem C19_magnitude_bracket : forall x d,
+  (Qabs (inject_Z (q_trunc (qv x / digits_unit d)) * digits_unit d) <= Qabs (qv x))%Q /\
+  (Qabs (qv x) <= Qabs (inject_Z (q_round_up (qv x / digits_unit d)) * digits_unit d))%Q.
+Proof. exact (fun x d => magnitude_bracket_digits (qv x) d). Qed.
+Print Assumptions C19_magnitude_bracket.
 
 (* INT is floor *)
 Theorem C19_int : forall x, numeric x -> excellib.f_int_ x = Ok (VInt (Qfloor (qv x))).
